@@ -12,6 +12,7 @@ META = {
     "level": "Decides the structural clauses: the bash side sends command + 5 fields and reads one reply; Python reads exactly those 5 and, on every normal completion, writes exactly one _encode_ret() line; no helper writes replies itself; fatal failures leave __call__ only as IpcCommandError/IpcInternalError and run_generic_phase sends their pre-encoded single line exactly once; _encode_ret collapses multi-line text in both arms; each external `install` invocation's status is checked before the next one; every filesystem effect in the install/link helper family is under an OSError->IpcCommandError conversion; coroutines are restarted per request. Does NOT decide what the filesystem operations do.",
     "note": "",
 }
+META["technique"] += "; " + 'generic pack G on the anchored files (optional-flag shift, closures outliving a loop iteration, single-pass iterables consumed twice, %-templates built from data, in-place writes to class-level / memoised objects, generators mutating what they yielded, memo keys that are projections)'
 MOD = "pkgcore.ebuild.ebd_ipc"
 LIB = "data/lib/pkgcore/ebd/ebuild-daemon-lib.bash"
 EFFECTS = {"os.makedirs", "os.unlink", "os.symlink", "os.readlink", "os.link", "os.lchown", "os.chown", "os.chmod", "os.utime", "os.stat", "os.lstat", "os.rename", "os.remove", "os.mkdir",
